@@ -40,22 +40,26 @@ Convert(prog) == IF IsV2File(prog) THEN [i \in 1..Len(prog) |-> ConvertCmd(prog[
 \* ---------- the EEMS 2.0 files explored: one command per mapped name, around the usual fixture
 Fix2 == << Cmd("R", "EEMSRead", FALSE), Cmd("R2", "EEMSRead", FALSE),
            <<"F", "CvtToFuzzy", << <<"InFieldName", <<"ref", "R">>>> >> >>, <<"F2", "CvtToFuzzy", << <<"InFieldName", <<"ref", "R2">>>> >> >> >>
-\* (nffirst: NewFieldName written before the other arguments - the result name does not depend on the order in which arguments are written)
-V2Cmd(n, newfield, outfile, named, nffirst) ==
+\* (nffirst: NewFieldName written before the other arguments - the result name does not depend on the order in which arguments are written;
+\*  allargs: the optional arguments are given too; mpname: the result-less command carries the MPILOT name of the command, which makes the
+\*  file an EEMS 2.0 style file all the same)
+V2Cmd(n, newfield, outfile, named, nffirst, allargs, mpname) ==
     LET d == D(V2Target(n)) nf == << <<"NewFieldName", <<"ref", "NF">>>> >> IN
-    << (IF named THEN "T" ELSE ""), n,
+    << (IF named THEN "T" ELSE ""), (IF mpname THEN V2Target(n) ELSE n),
        (IF newfield /\ nffirst THEN nf ELSE <<>>)
-       \o ArgsFor(d, FALSE)
+       \o SelectSeq(ArgsFor(d, allargs), LAMBDA a : a[1] \notin {"NewFieldName", "OutFileName", "Metadata"})
        \o (IF newfield /\ ~nffirst THEN nf ELSE <<>>)
        \o (IF outfile THEN << <<"OutFileName", <<"str", "rel_missing">>>> >> ELSE <<>>) >>
 \* a second legacy command without any NewFieldName, after the one under test: its result name must be its own InFieldName
 PlainRead == <<"", "READ", << <<"InFileName", <<"str", "rel_exists">>>>, <<"InFieldName", <<"str", "colb">>>> >> >>
 VARIABLES v2, image, done
 vars == <<v2, image, done>>
-Init == /\ \E n \in V2Names \ MissingTargets, nf \in BOOLEAN, of \in BOOLEAN, named \in BOOLEAN, pos \in {"first", "last"}, second \in BOOLEAN, nffirst \in BOOLEAN :
+Init == /\ \E n \in V2Names \ MissingTargets, nf \in BOOLEAN, of \in BOOLEAN, named \in BOOLEAN, pos \in {"first", "last"}, second \in BOOLEAN, nffirst \in BOOLEAN,
+              allargs \in BOOLEAN, mpname \in BOOLEAN :
               LET tail == IF second THEN <<PlainRead>> ELSE <<>> IN
-              /\ (nffirst => nf)
-              /\ v2 = IF pos = "first" THEN <<V2Cmd(n, nf, of, named, nffirst)>> \o tail \o Fix2 ELSE Fix2 \o <<V2Cmd(n, nf, of, named, nffirst)>> \o tail
+              /\ (nffirst => nf) /\ (mpname => ~named /\ ~allargs) /\ (allargs => ~nffirst /\ ~second)
+              /\ v2 = IF pos = "first" THEN <<V2Cmd(n, nf, of, named, nffirst, allargs, mpname)>> \o tail \o Fix2
+                      ELSE Fix2 \o <<V2Cmd(n, nf, of, named, nffirst, allargs, mpname)>> \o tail
         /\ image = <<>> /\ done = FALSE
 Apply == ~done /\ done' = TRUE /\ image' = Convert(v2) /\ UNCHANGED v2
 Next == Apply
